@@ -321,10 +321,8 @@ namespace Givaro
     inline Modular<Log16>::Rep& Modular<Log16>::axpy
     (Rep& r, const Rep& a, const Rep& b, const Rep& c) const
     {
-        (r)=  _tab_mul[(a) + (b)];
-        Rep tmp = _tab_addone[(c) - (r)];
-        (r)=  _tab_mul[(r) + tmp ];
-        return r;
+        Rep t; __GIVARO_ZPZ16_LOG_MUL(t,_p,a,b); // r may be c
+        return this->add(r,t,c);
     }
 
     inline Modular<Log16>::Rep& Modular<Log16>::axpyin
@@ -342,8 +340,8 @@ namespace Givaro
     inline Modular<Log16>::Rep& Modular<Log16>::axmy
     (Rep& r, const Rep& a, const Rep& b, const Rep& c) const
     {
-        __GIVARO_ZPZ16_LOG_MULSUB(r,_p,a,b,c);
-        return r;
+        Rep t; __GIVARO_ZPZ16_LOG_MUL(t,_p,a,b); // r may be c
+        return this->sub(r,t,c);
     }
 
     // r <- r-a*b
